@@ -265,6 +265,7 @@ def rule_units_and_guard(ctx, rep, units=True):
         else:
             cls = cad.closures_of(b.path)
             anyc = mapc = None
+            quant = 'any'
             b0 = b
             b = ib
             for bi, t in b.calls():
@@ -273,6 +274,10 @@ def rule_units_and_guard(ctx, rep, units=True):
                 ct = norm(T.call_term(bi))
                 if term_callee_is(ct, 'as core::iter::traits::iterator::Iterator>::any'):
                     anyc = (bi, ct)
+                    quant = 'any'
+                if term_callee_is(ct, 'as core::iter::traits::iterator::Iterator>::all'):
+                    anyc = (bi, ct)
+                    quant = 'all'       # all(fits) is any(too big) with the truth flipped
                 if term_callee_is(ct, 'as core::iter::traits::iterator::Iterator>::map'):
                     mapc = (bi, ct)
             if anyc is None and mapc is None:
@@ -329,21 +334,21 @@ def rule_units_and_guard(ctx, rep, units=True):
                 rep.bad('R3', inst, mb.where(), 'element conversion is not `<128-bit count> as u64`: %s' % fmt(c)[:100])
                 continue
             # guard closure returns (x > MAX) on the same accessor term
-            verdict, why = _cmp_exact(g, True, x)
+            verdict, why = _elem_guard_exact(ab, Ta, g, quant == 'any', x)
             # any() true edge -> Err(InvalidInput) ; false edge -> the map
             sw = [bi for bi, blk in enumerate(b.blocks) if blk['term']['k'] == 'switch' and not blk['cleanup']]
             wired = False
             for s in sw:
                 dt, edges = T.switch_facts(s)
                 if norm(dt) == anyc[1]:
-                    te = [q for q, labs in edges.items() if ('bool', True) in labs]
-                    fe = [q for q, labs in edges.items() if ('bool', False) in labs]
+                    te = [q for q, labs in edges.items() if ('bool', quant == 'any') in labs]
+                    fe = [q for q, labs in edges.items() if ('bool', quant != 'any') in labs]
                     r_t = ret_terms(T, te)
                     r_f = ret_terms(T, fe)
                     wired = bool(r_t) and all(_is_invalid_input(r) for r in r_t) and bool(r_f) and all(r[0] == 'adt' and r[2] == 'Ok' for r in r_f) \
                         and mapc[0] in reach(b, fe) and mapc[0] not in reach(b, te)
             ok = verdict and wired and ok_src
-            rep.ob('R3', inst, ok, b.where(), 'any(count > u64::MAX) over the whole list rejects with InvalidInput, otherwise every element is cast' if ok else
+            rep.ob('R3', inst, ok, b.where(), '%s over the whole list: a count above u64::MAX rejects with InvalidInput, otherwise every element is cast' % ('any(too big)' if quant == 'any' else 'all(fits)') if ok else
                    (why if not verdict else 'any()/map() are not wired as reject-else-convert over the whole list (only part of the list is checked?)'))
     rep.floor('R3', 'narrowing u128->u64 conversions', n_casts, 4)
 
@@ -480,6 +485,10 @@ def _cmp_exact(g, truth_rejects, x):
         # (u64::MAX as u128) -> const
         if t[0] == 'cast' and t[4][0] == 'const':
             return ('const', t[3], t[4][2], None)
+        if t[0] == 'call' and isinstance(t[1], str) and len(t[2]) == 1 and t[2][0][0] == 'const':
+            m = _re.match(r'^<(\w+) as core::convert::From>::from$', t[1])
+            if m and m.group(1) in INT_RANGE and t[2][0][1] in INT_RANGE:
+                return ('const', m.group(1), t[2][0][2], None)      # lossless widening of a constant
         return t
     if g[0] != 'bin':
         return False, 'guard is not a comparison: %s' % fmt(g)[:100]
@@ -497,6 +506,30 @@ def _cmp_exact(g, truth_rejects, x):
         return False, 'the guard lets values above u64::MAX through to the truncating cast: %r' % lin
     except L.Unknown as e:
         return False, str(e)
+
+
+def _elem_guard_exact(ab, Ta, g, truth_rejects, x):
+    """per-element predicate g of any()/all(): a comparison equivalent to x > u64::MAX (x <= u64::MAX), or the outcome
+    test of a checked conversion `u64::try_from(x).is_err()` (`.is_ok()`) of the same x (std: Err iff x does not fit)."""
+    neg = False
+    while g[0] == 'un' and g[1] == 'Not':
+        g, neg = g[2], not neg
+    if g[0] == 'call' and isinstance(g[1], str) and g[1] in ('core::result::Result::is_ok', 'core::result::Result::is_err') and len(g[2]) == 1:
+        c = peel(g[2][0])
+        m = _TRYFROM.match(c[1]) if c[0] == 'call' and isinstance(c[1], str) else None
+        if not m or len(c[2]) != 1:
+            return False, 'the element test is not the outcome of a checked integer conversion: %s' % fmt(g)[:100]
+        bi = _call_block(ab, Ta, c)
+        src = _tryfrom_src(ab, bi) if bi is not None else None
+        if m.group(1) != 'u64' or src != 'u128':
+            return False, 'checked conversion is %s -> %s, expected u128 -> u64' % (src, m.group(1))
+        if norm(c[2][0]) != norm(x):
+            return False, 'the element test converts %s but the value sent is %s' % (fmt(c[2][0])[:60], fmt(x)[:60])
+        says_too_big = (g[1].endswith('is_err')) != neg
+        if says_too_big != truth_rejects:
+            return False, 'the element test has the wrong polarity (values that fit are rejected, too large ones are cast)'
+        return True, ''
+    return _cmp_exact(g, truth_rejects != neg, x)
 
 
 def _guard_exact(T, b, okb, x):
